@@ -9,7 +9,7 @@ from hypothesis import strategies as st
 from vlib import bd_checks
 from vlib.cauchy import orders_upto
 from vlib.gen_matrix import order_key, problems, to_oracle
-from vlib.instrument import logged_hamiltonian
+from vlib.instrument import implicit_kwargs, logged_hamiltonian
 from vlib.runner import Outcome
 
 ID = "C12"
@@ -37,7 +37,7 @@ RULE = (
     "order >= 2."
 )
 ASSUMPTIONS = ["the user's series caches its own elements (it is a BlockSeries), so a second evaluation can only come from the library deleting input terms"]
-REQUIRED_CLASSES = {"all": ["form=blocked", "form=scalar", "form=scalar_implicit", "elements=sympy", "mode=nonhermitian", "params=2", "params=3", "terms-outside-cone"]}
+REQUIRED_CLASSES = {"all": ["form=blocked", "form=scalar", "form=scalar_implicit", "paired-list-request", "elements=sympy", "mode=nonhermitian", "params=2", "params=3", "terms-outside-cone"]}
 
 
 def strategy(tier):
@@ -64,9 +64,17 @@ def strategy(tier):
             while sum(n) > (4 if k == 1 else 3):
                 n[n.index(max(n))] -= 1
             reqs.append([draw(st.sampled_from(["H_tilde", "U", "U_inv"])), draw(st.integers(0, nb - 1)), draw(st.integers(0, nb - 1))] + n)
+        # one more request that names several multi-orders at once through paired index lists, numpy style:
+        # series[i, j, [2, 1, 0], [0, 1, 2]] asks for the orders (2,0), (1,1), (0,2) - and for nothing else
+        multi = None
+        if k >= 2 and draw(st.booleans()):
+            tot = draw(st.integers(1, 3 if k == 2 else 2))
+            pool = [o for o in itertools.product(range(tot + 1), repeat=k) if sum(o) == tot]
+            chosen = draw(st.lists(st.sampled_from(pool), min_size=2, max_size=3, unique=True))
+            multi = [draw(st.sampled_from(["H_tilde", "U", "U_inv"])), draw(st.integers(0, nb - 1)), draw(st.integers(0, nb - 1)), [list(o) for o in chosen]]
         form = draw(st.sampled_from(["blocked", "scalar", "scalar_implicit"]))
         symbolic = draw(st.integers(0, 3)) == 0 and len(p["assign"]) <= 4
-        return {"problem": p, "form": form, "symbolic": symbolic, "requests": reqs, "poison_for": draw(st.integers(0, 5))}
+        return {"problem": p, "form": form, "symbolic": symbolic, "requests": reqs, "poison_for": draw(st.integers(0, 5)), "multi": multi}
 
     return cases()
 
@@ -112,24 +120,7 @@ def check_case(case, enforce_all=False):
             out.labels[-3] = "form=scalar"
 
     def implicit(kw):
-        if form != "scalar_implicit":
-            return kw
-        from vlib.gen_matrix import states_of
-
-        kw = dict(kw)
-        kw.pop("subspace_indices")
-        last = len(p["blocks"]) - 1
-        kw["subspace_eigenvectors"] = [np.eye(len(p["assign"]))[:, s_] for s_ in states_of(p)[:-1]]
-        fd = kw.get("fully_diagonalize")
-        if isinstance(fd, dict):
-            fd = {b_: m for b_, m in fd.items() if b_ != last}
-        elif fd is not None:
-            fd = tuple(b_ for b_ in fd if b_ != last)
-        if fd:
-            kw["fully_diagonalize"] = fd
-        else:
-            kw.pop("fully_diagonalize", None)
-        return kw
+        return implicit_kwargs(p, kw) if form == "scalar_implicit" else kw
 
     H, kwargs = logged_hamiltonian(p, form=lib_form, log=log, symbolic=symbolic)
     kwargs = implicit(kwargs)
@@ -175,6 +166,30 @@ def check_case(case, enforce_all=False):
             outside = True
         if sum(n) >= 2 and any(sum(o) >= 2 and _le(o, n) for o in term_orders):
             inside2 = True
+    if case.get("multi"):
+        name, i, j, orders_m = case["multi"]
+        orders_m = [tuple(o) for o in orders_m]
+        item = (i, j) + tuple([o[q] for o in orders_m] for q in range(k))
+        start = len(log)
+        try:
+            with warnings.catch_warnings():
+                warnings.simplefilter("ignore")
+                outputs[name][item]
+        except Exception as exc:  # noqa: BLE001
+            out.fail("exception", f"{name}{list(item)} raised {type(exc).__name__}: {str(exc)[:200]}")
+            return out
+        out.labels.append("paired-list-request")
+        for idx in log[start:]:
+            m = _orders_of(idx, form)
+            if not any(_le(m, n) for n in orders_m):
+                out.fail("acausal", f"request {name}{list(item)} (orders {orders_m}) evaluated the Hamiltonian term of order {list(m)}")
+                return out
+            if idx in seen:
+                out.fail("evaluated-twice", f"Hamiltonian element {list(idx)} evaluated a second time (during {name}{list(item)})")
+                return out
+            seen.add(idx)
+        if any(not any(_le(o, n) for n in orders_m) for o in term_orders):
+            outside = True
     if outside:
         out.labels.append("terms-outside-cone")
     # (b') the documented way to rotate an operator, U_inv . H . U as a Cauchy product of the outputs with the user's
